@@ -3,13 +3,14 @@ import json, random
 from collections import Counter
 import common, gen, pool, docrun
 
-THEOREMS = ["Determinism.sort_perm_invariant", "Determinism.numbering_perm_invariant", "Determinism.foldMax_perm_invariant"]
+THEOREMS = ["Determinism.sort_perm_invariant", "Determinism.numbering_perm_invariant", "Determinism.foldMax_perm_invariant",
+            "Iteration.generated_iteration_sites_ok"]
 
 
 def run(tier):
     sd = common.seed()
     rng = random.Random(sd * 881 + 43)
-    po = common.proof_obligations("GasolVerif.Proofs.Determinism", THEOREMS)
+    po = common.proof_obligations("GasolVerif.Proofs.Determinism,GasolVerif.Props.Iteration", THEOREMS)
     violations = [{"kind": "broken-proof-obligation", "what": b, "no_failing_input": True, "input": b} for b in po["broken"]]
     c = Counter()
     seeds = ["0", "1", "2", "3", "random"] if tier == "quick" else ["0", "1", "2", "3", "4", "7", "random", "random"]
@@ -65,7 +66,9 @@ def run(tier):
                    "line under different hash seeds and the optimized file and log compared byte for byte" % seeds,
            "samples": samples or [{"n": 0}], "counters": dict(c)}
     return {"level": "proof", "coverage": cov, "violations": violations,
-            "assumptions": ["partial: the site list of set/dict iterations is not extracted; the lemmas justify the order-insensitive consumers the design names",
+            "assumptions": ["the places where a set is visited in its own order are extracted from the source on every run (syntactic, function-local: a set reached "
+                            "through a parameter, a return value or a container is not seen) and must feed an order-insensitive consumer or be allow-listed "
+                            "(Iteration.generated_iteration_sites_ok); the lemmas justify the order-insensitive consumers",
                             "machine load and temporary-directory names are varied only through separate processes"]}
 
 
